@@ -302,6 +302,55 @@ theorem items_eq_contents (s : Store K F) (h : WF s) :
       obtain ⟨p, _, rfl⟩ := hr
       exact hfi
 
+theorem sliceBound_le (n : Nat) (b : Option Int) (d : Nat) (hd : d ≤ n) : sliceBound n b d ≤ n := by
+  unfold sliceBound
+  cases b with
+  | none => exact hd
+  | some i =>
+    simp only
+    split_ifs with h
+    · omega
+    · exact Nat.min_le_right _ _
+
+/-- `storage[a:b]` (step 1): the fields of the stored frames `lo .. hi-1` in order, where `lo`, `hi`
+are Python's `slice.indices` bounds; never an error -/
+theorem getSlice_eq (s : Store K F) (h : WF s) (a b : Option Int) :
+    ∃ l, getSlice s a b = .ok l ∧
+      l.map Prod.snd = (s.frames.drop (sliceBound s.times.length a 0)).take
+        (sliceBound s.times.length b s.times.length - sliceBound s.times.length a 0) ∧
+      ∀ r ∈ l, s.template = some r.1 := by
+  unfold getSlice
+  simp only
+  generalize hlo : sliceBound s.times.length a 0 = lo
+  generalize hhi : sliceBound s.times.length b s.times.length = hi
+  have hhi' : hi ≤ s.frames.length := by
+    rw [← hhi, ← h.1]; exact sliceBound_le _ _ _ (le_refl _)
+  by_cases hm : hi - lo = 0
+  · refine ⟨[], ?_, by simp [hm], by simp⟩
+    simp [hm]; rfl
+  · have hne : s.frames ≠ [] := by
+      intro h0; rw [h0] at hhi'; simp at hhi'; omega
+    obtain ⟨fi, hfi, _⟩ := template_present s h hne
+    refine ⟨((List.range (hi - lo)).map (· + lo)).map (fun i => (fi, s.frames.getD i (s.frames.head hne))), ?_, ?_, ?_⟩
+    · apply mapM_ok
+      intro i hi'
+      simp only [List.mem_map, List.mem_range] at hi'
+      obtain ⟨k, hk, rfl⟩ := hi'
+      have hlt : k + lo < s.frames.length := by omega
+      obtain ⟨fi', hfi', hg⟩ := getField_nat s h (k + lo) hlt
+      rw [hfi] at hfi'; cases hfi'
+      rw [hg]; simp [hlt]
+    · apply List.ext_getElem
+      · simp; omega
+      · intro k h1 h2
+        simp at h1 h2
+        have hlt : lo + k < s.frames.length := by omega
+        simp [Nat.add_comm, List.getElem?_eq_getElem hlt]
+    · intro r hr
+      simp only [List.mem_map] at hr
+      obtain ⟨i, _, rfl⟩ := hr
+      exact hfi
+
 theorem log_snd_eq_frame (s : Store K F) (sp : Spec K F) (h : Refines s sp) (i : Nat)
     (hi : i < sp.log.length) :
     ∃ h2 : i < s.frames.length, (sp.log[i]).2 = s.frames[i] := by
@@ -2497,6 +2546,94 @@ theorem apply_world (w : World K) (h : w.Inv) (sid : Nat) (f : Func K) (out : Op
 
 end world
 
+/-! ### `from_collection` -/
+
+section fromCollection
+
+/-- the gathering loop of `from_collection`: the fields of a storage with at most as many
+frames as the first one are appended to the first `fs.length` member lists, in order -/
+theorem gatherInto_spec {α : Type} : ∀ (fs : List α) (data : List (List α)) (i : Nat),
+    i + fs.length ≤ data.length →
+    ∃ data', gatherInto data fs i = .ok data' ∧ data'.length = data.length ∧
+      ∀ k (hk : k < data.length) (hk' : k < data'.length),
+        data'[k] = if h : i ≤ k ∧ k < i + fs.length then data[k] ++ [fs[k - i]'(by omega)] else data[k] := by
+  intro fs
+  induction fs with
+  | nil => intro data i _; exact ⟨data, rfl, rfl, by intro k hk hk'; simp⟩
+  | cons f fs ih =>
+    intro data i h
+    simp only [List.length_cons] at h
+    have hi : i < data.length := by omega
+    unfold gatherInto
+    rw [List.getElem?_eq_getElem hi]
+    simp only
+    obtain ⟨data', e1, e2, e3⟩ := ih (data.set i (data[i] ++ [f])) (i + 1) (by simp; omega)
+    refine ⟨data', e1, by simpa using e2, ?_⟩
+    intro k hk hk'
+    have := e3 k (by simpa using hk) hk'
+    rw [this]
+    by_cases hki : k = i
+    · subst hki
+      simp
+    · rw [List.getElem_set_ne (Ne.symm hki)]
+      by_cases hc : i + 1 ≤ k ∧ k < i + 1 + fs.length
+      · have hc' : i ≤ k ∧ k < i + (fs.length + 1) := by omega
+        simp only [hc, hc', and_self, dite_true, List.length_cons]
+        congr 2
+        have : k - i = (k - (i + 1)) + 1 := by omega
+        simp [this]
+      · have hc' : ¬ (i ≤ k ∧ k < i + (fs.length + 1)) := by omega
+        simp [hc, hc']
+
+/-- a longer storage than the first one is `IndexError` (`data[i]`) -/
+theorem gatherInto_too_long {α : Type} : ∀ (fs : List α) (data : List (List α)) (i : Nat),
+    i ≤ data.length → data.length < i + fs.length → gatherInto data fs i = .error .index := by
+  intro fs
+  induction fs with
+  | nil => intro data i h1 h2; simp at h2; omega
+  | cons f fs ih =>
+    intro data i h1 h2
+    unfold gatherInto
+    by_cases hi : i < data.length
+    · rw [List.getElem?_eq_getElem hi]
+      simp only
+      exact ih _ (i + 1) (by simp; omega) (by simp at h2 ⊢; omega)
+    · rw [List.getElem?_eq_none (by omega)]
+
+/-- what `FieldCollection(fields, label=...)` makes of the member descriptions -/
+theorem collInfo_cases (label : Option String) (fi0 : FieldInfo) (rest : List FieldInfo) :
+    ((∃ fi ∈ rest, fi.grid ≠ fi0.grid) → collInfo label (fi0 :: rest) = .error .runtime) ∧
+    ((∀ fi ∈ rest, fi.grid = fi0.grid) → (∃ fi ∈ fi0 :: rest, fi.cls = 3) →
+      collInfo label (fi0 :: rest) = .error .type) ∧
+    ((∀ fi ∈ rest, fi.grid = fi0.grid) → (∀ fi ∈ fi0 :: rest, fi.cls ≠ 3) →
+      ∃ c, collInfo label (fi0 :: rest) = .ok c ∧ c.cls = 3 ∧ c.label = label ∧ c.grid = fi0.grid ∧
+        c.members.map (·.label) = (fi0 :: rest).map (·.label) ∧
+        c.members.map (·.shape) = (fi0 :: rest).map (·.shape)) := by
+  refine ⟨?_, ?_, ?_⟩
+  · rintro ⟨fi, hfi, hne⟩
+    simp only [collInfo]
+    rw [if_pos]
+    simp only [List.any_eq_true, decide_eq_true_eq]
+    exact ⟨fi, hfi, hne⟩
+  · intro hg ⟨fi, hfi, hc⟩
+    simp only [collInfo]
+    rw [if_neg, if_pos]
+    · simp only [List.any_eq_true, beq_iff_eq]
+      exact ⟨fi, hfi, hc⟩
+    · simp only [List.any_eq_true, decide_eq_true_eq, not_exists, not_and, not_not]
+      exact hg
+  · intro hg hc
+    simp only [collInfo]
+    rw [if_neg, if_neg]
+    · exact ⟨_, rfl, rfl, rfl, rfl, by simp [List.map_map, Function.comp_def],
+        by simp [List.map_map, Function.comp_def]⟩
+    · simp only [List.any_eq_true, beq_iff_eq, not_exists, not_and]
+      exact hc
+    · simp only [List.any_eq_true, decide_eq_true_eq, not_exists, not_and, not_not]
+      exact hg
+
+end fromCollection
+
 /-! ### non-vacuity: concrete histories meet the hypotheses and the conclusions are not trivial -/
 
 section examples
@@ -2574,6 +2711,16 @@ example : (bisectLeft ([1/2, 5/2, -1/2, 1/2, 1/2, -5/2, -3] : List Rat) (1/2),
     bisectRight ([1/2, 5/2, -1/2, 1/2, 1/2, -5/2, -3] : List Rat) (1/2)) = (3, 7) := by decide +kernel
 
 example : ([0, 1, 1, 2, 5] : List Rat).Pairwise (· ≤ ·) := by decide +kernel
+
+/-- `from_collection` of a scalar and a vector time series with the same times: the frames are
+the concatenated member data, the template is a collection with the members' labels -/
+example : ((run World.empty ([.newField exInfo [1, 2], .newField ⟨0, 2, [1, 2], 1, some "w", []⟩ [7, 8],
+    .newStore .truncateOnce, .newStore .append, .start 0 0, .start 1 1, .append 0 0 (some 0),
+    .append 1 1 (some 0), .setField 0 [3, 4], .append 0 0 (some 2), .append 1 1 (some 2),
+    .fromCollection [0, 1, 0] (some "L") (1/100000) (1/100000000)] : List (Op Rat))).view 2).map
+    (fun s => (s.contents, s.template.map (fun t => (t.shape, t.members.map (·.label))))) =
+    some ([(0, [1, 2, 7, 8, 1, 2]), (2, [3, 4, 7, 8, 3, 4])],
+      some ([3, 2], [some "a", some "w", some "a"])) := by decide +kernel
 
 end examples
 
